@@ -30,19 +30,22 @@ UNIVERSE_MC = """  Own = own
   Names = {n1}
   NoIP = noip
   NoName = noname
-  ProbeD = 1
-  OfflineD = 2
-  PurgeD = 4
+  ProbeD = %(probe)d
+  OfflineD = %(offline)d
+  PurgeD = %(purge)d
   Never = 100000
 """
 
+STD = (1, 2, 4)        # probe / offline / purge deadlines in time units
+ALT = (1, 4, 2)        # a legal configuration with PurgeDeadline < OfflineDeadline
 
-def mc_cfg(mode, depth, export_every, invariants, ext="", symmetry=True, steps="{1, 2, 3, 5}"):
+
+def mc_cfg(mode, depth, export_every, invariants, ext="", symmetry=True, steps="{1, 2, 3, 5}", dl=STD):
     spec = "SpecFree" if mode == "free" else "SpecNotify"
     inv = list(invariants)
     if export_every:
         inv = ["Export"] + inv
-    return ("SPECIFICATION %s\nCONSTANTS\n" % spec + UNIVERSE_MC % {"ext": ext} +
+    return ("SPECIFICATION %s\nCONSTANTS\n" % spec + UNIVERSE_MC % {"ext": ext, "probe": dl[0], "offline": dl[1], "purge": dl[2]} +
             "  MaxDepth = %d\n  Steps = %s\n  ExportEvery = %d\n" % (depth, steps, export_every or 1) +
             "INVARIANTS %s\nVIEW View\n%sCHECK_DEADLOCK FALSE\n" % (" ".join(inv), "SYMMETRY Sym\n" if symmetry else ""))
 
@@ -51,11 +54,11 @@ MC_INV = {"free": ["TypeOK", "C04_Equal", "C05_All"],
           "notify": ["TypeOK", "C04_Equal", "C05_All", "C06_Exact", "C06_OneOnlineIP4PerMac"]}
 
 
-def run_mc(ctx, mode, depth, export_every=1, timeout=1500, ext="", allow_timeout=False):
+def run_mc(ctx, mode, depth, export_every=1, timeout=1500, ext="", allow_timeout=False, dl=STD):
     """Exhaustive TLC run; a model-level invariant failure here means specification and reference
     disagree (design finding or spec bug), which is not a verdict about the code: exit 2.
     export_every=0: model checking only (no behaviour export)."""
-    cfg = mc_cfg(mode, depth, export_every, MC_INV[mode], ext=ext)
+    cfg = mc_cfg(mode, depth, export_every, MC_INV[mode], ext=ext, dl=dl)
     r = vlib.tlc(ctx, "HostsMC", cfg="mc.cfg", files={"mc.cfg": cfg}, timeout=timeout, heap="12g",
                  jprops={"tlc2.tool.queue.IStateQueue": "MemStateQueue"})
     if allow_timeout and getattr(r, "timed_out", False) and not r.violated:
@@ -84,7 +87,7 @@ LAN = ["a%d" % i for i in range(1, 7)]
 EXT = ["x1", "x2", "x3"]
 LLA = ["l%d" % i for i in range(1, 5)]
 GUA = ["g%d" % i for i in range(1, 5)]
-NAMES = ["n1", "n2", "n3"]
+NAMES = ["n1", "n2", "n3", "n1u", "n2u"]     # n<K>u = the same name in upper case
 SLOTS = ["dhcp", "mdns", "ssdp", "llmnr", "nbns"]
 
 
@@ -94,6 +97,8 @@ def random_script(rng, mode, length):
     macs = rng.sample(CLIENTS, rng.randint(1, 3)) + ["router"]
     lan = rng.sample(LAN, rng.randint(1, 3)) + rng.sample(["hostip", "routerip"], rng.randint(0, 1))
     v6 = rng.sample(LLA, rng.randint(0, 2)) + rng.sample(GUA, rng.randint(0, 2))
+    if rng.random() < 0.3:      # the IPv4-mapped IPv6 form of one of the LAN addresses in play
+        v6 += ["q" + x[1:] for x in lan if x[0] == "a" and int(x[1:]) <= 6][:1]
     ext = rng.sample(EXT, 1)
     out = []
     host_frame = False      # a frame with a host is pending (free mode): no dhcpupd before notify
@@ -187,21 +192,68 @@ def crowd_script(rng, mode):
     return out
 
 
-def write_script(path, behaviours, ncfg=3):
+def maccrowd_script(rng, mode):
+    """More MAC entries than any small fixed structure (17+): 18-20 clients, one address each; the most recently
+    created MAC entry ages out, is purged (last element of the MAC table) and comes back."""
+    n = rng.randint(17, 20)
+    macs = ["m%d" % i for i in range(1, n + 1)]
+    rng.shuffle(macs)
+    ips = ["a%d" % i for i in rng.sample(range(1, 21), n)]
+    fr = "fip" if mode == "notify" else "ip"
+    def frame(m, ip):
+        a = {"a": fr, "src": m, "key": m, "ip": ip}
+        if mode == "notify":
+            a.update({"slot": "dhcp", "name": "noname"})
+        return a
+    pairs = list(zip(macs, ips))
+    out = [{"a": "cfg", "cfg": rng.choice([0, 2])}] + [frame(m, ip) for m, ip in pairs]
+    leavers = pairs[-rng.randint(1, 2):]
+    stay = [p for p in pairs if p not in leavers]
+    out += [{"a": "adv", "d": 3}] + [frame(m, ip) for m, ip in stay] + [{"a": "purge"}]
+    out += [{"a": "adv", "d": 5}] + [frame(m, ip) for m, ip in stay] + [{"a": "purge"}]
+    out += [frame(m, ip) for m, ip in leavers]
+    if rng.random() < 0.5:
+        out += [{"a": "capture", "mac": leavers[0][0]}, {"a": "release", "mac": leavers[0][0]}]
+    out += [frame(m, rng.choice(ips)) for m, _ in rng.sample(pairs, 3)]
+    return out
+
+
+def saturation_script(rng, mode):
+    """A caller that never reads Session.C: more than 128 notifications pile up (the channel is full and further ones
+    are dropped), then hosts must still age out and be removed."""
+    macs = rng.sample(CLIENTS, 4)
+    ips = ["a%d" % i for i in rng.sample(range(1, 21), 18)]
+    fr = "fip" if mode == "notify" else "ip"
+    def frame(m, ip):
+        a = {"a": fr, "src": m, "key": m, "ip": ip}
+        if mode == "notify":
+            a.update({"slot": "dhcp", "name": "noname"})
+        return a
+    owner = {ip: rng.choice(macs) for ip in ips}
+    out = [{"a": "cfg", "cfg": rng.choice([0, 2]), "nodrain": 1}]
+    for _ in range(5 if mode == "notify" else 9):       # each cycle: 18 online (+18 offline) notifications
+        out += [frame(owner[ip], ip) for ip in ips] + [{"a": "adv", "d": 3}, {"a": "purge"}]
+    out += [frame(owner[ips[0]], ips[0]), {"a": "adv", "d": 3}, {"a": "purge"}, {"a": "adv", "d": 5}, {"a": "purge"},
+            frame(owner[ips[1]], ips[1])]
+    return out
+
+
+def write_script(path, behaviours, ncfg=3, dl=STD):
     n = 0
     with open(path, "w") as f:
         for i, h in enumerate(behaviours):
-            cfg = i % ncfg
+            rs = {"a": "reset", "cfg": i % ncfg, "id": i, "probe": dl[0], "offline": dl[1], "purge": dl[2]}
             if h and h[0].get("a") == "cfg":
-                cfg, h = h[0]["cfg"], h[1:]
-            f.write(json.dumps({"a": "reset", "cfg": cfg, "id": i}) + "\n")
+                rs.update({k: v for k, v in h[0].items() if k != "a"})
+                h = h[1:]
+            f.write(json.dumps(rs) + "\n")
             for a in h:
                 f.write(json.dumps(a) + "\n")
                 n += 1
     return n
 
 
-ARGS = ("a", "src", "key", "ip", "mac", "name", "slot", "d", "kind", "notify", "cfg", "id")
+ARGS = ("a", "src", "key", "ip", "mac", "name", "slot", "d", "kind", "notify", "cfg", "id", "nodrain", "probe", "offline", "purge")
 
 
 def behaviour_at(trace_path, line):
@@ -222,16 +274,17 @@ def behaviour_at(trace_path, line):
     return out
 
 
-def trace_cfg(mode, check):
+def trace_cfg(mode, check, dl=STD):
     c = open(os.path.join(vlib.SPEC, "HostsTrace_M.cfg")).read()
     c = c.replace('Mode = "M"', 'Mode = "%s"' % mode)
+    c = c.replace("ProbeD = 1", "ProbeD = %d" % dl[0]).replace("OfflineD = 2", "OfflineD = %d" % dl[1]).replace("PurgeD = 4", "PurgeD = %d" % dl[2])
     c = re.sub(r'Check = \{[^}]*\}', 'Check = {%s}' % ", ".join('"%s"' % x for x in check), c)
     return c
 
 
-def validate(ctx, trace_path, mode, check, timeout=1800):
+def validate(ctx, trace_path, mode, check, timeout=1800, dl=STD):
     """TLC trace validation. Returns ('accepted', n) | ('rejected', line) | ('property', line, which)."""
-    r = vlib.tlc(ctx, "HostsTrace", cfg="t.cfg", files={"t.cfg": trace_cfg(mode, check), "trace.ndjson": trace_path},
+    r = vlib.tlc(ctx, "HostsTrace", cfg="t.cfg", files={"t.cfg": trace_cfg(mode, check, dl), "trace.ndjson": trace_path},
                  workers=1, timeout=timeout, heap="8g")
     m = re.search(r'<<"PROPERTY", "(C\d+)", "line", (\d+)>>', r.out)
     if m:
@@ -255,7 +308,7 @@ def drive(ctx, binary, script_path, trace_path, shared=False, stutter=0.2, frame
     return json.loads(p.stdout.strip().splitlines()[-1])
 
 
-def confirm(ctx, binary, script, check, shared=False):
+def confirm(ctx, binary, script, check, shared=False, dl=STD):
     """Re-execute one behaviour on the real code (no stutter: the script already contains the
     untracked frames) and validate it in property mode. True if the violation reproduces."""
     sp = os.path.join(ctx.scratch, "confirm.script")
@@ -266,11 +319,11 @@ def confirm(ctx, binary, script, check, shared=False):
     st = drive(ctx, binary, sp, tp, stutter=0, shared=shared)
     if st.get("panics"):
         return True, "panic"
-    v, _ = validate(ctx, tp, "P", check, timeout=300)
+    v, _ = validate(ctx, tp, "P", check, timeout=300, dl=dl)
     return v[0] == "property", v
 
 
-def check_traces(ctx, binary, trace_path, check, label, shared=False):
+def check_traces(ctx, binary, trace_path, check, label, shared=False, dl=STD):
     """Validate one trace file for the properties in `check`. Reports violations through ctx.
     Returns dict with counts."""
     res = {"label": label, "lines": 0, "mechanism_conformant": True, "drift_line": None}
@@ -287,7 +340,7 @@ def check_traces(ctx, binary, trace_path, check, label, shared=False):
         if "C05" in check or "host table differ" not in e.get("panic", ""):
             ctx.report("%s:panic:%s" % (ctx.pid, e.get("a")), "library panicked during a valid history: %s" % e.get("panic"),
                        {"script": script, "panic": e.get("panic")})
-    v, r = validate(ctx, trace_path, "M", check)
+    v, r = validate(ctx, trace_path, "M", check, dl=dl)
     res["tlc_states"] = r.distinct
     if v[0] == "accepted":
         res["validated_lines"] = v[1]
@@ -297,7 +350,7 @@ def check_traces(ctx, binary, trace_path, check, label, shared=False):
         res["mechanism_conformant"] = False
         res["drift_line"] = v[1]
         vlib.log("  [%s] mechanism-level rejection at line %d, re-validating in property mode" % (label, v[1]))
-        v, r = validate(ctx, trace_path, "P", check)
+        v, r = validate(ctx, trace_path, "P", check, dl=dl)
         if v[0] == "accepted":
             res["validated_lines"] = v[1]
             res["drift"] = True
@@ -305,12 +358,12 @@ def check_traces(ctx, binary, trace_path, check, label, shared=False):
     if v[0] == "property":
         line, which = v[1], v[2]
         script = behaviour_at(trace_path, line)
-        ok, info = confirm(ctx, binary, script, check, shared=shared)
+        ok, info = confirm(ctx, binary, script, check, shared=shared, dl=dl)
         if not ok:
             raise vlib.InfraError("property-level failure %s at line %d did not reproduce (%s)" % (which, line, info))
         last = script[-1]
         ctx.report("%s:%s" % (which, last.get("a")), "real session contradicts %s after step %s" % (which, json.dumps(last)),
-                   {"script": script, "failed": which, "shared": shared})
+                   {"script": script, "failed": which, "shared": shared, "dl": list(dl)})
         res["validated_lines"] = line - 1
         return res
     raise vlib.InfraError("unexpected validation verdict %s" % (v,))
@@ -320,7 +373,8 @@ def replay(ctx, path, check):
     obj = json.load(open(path))
     script = obj["replay"]["script"]
     binary = vlib.go_build(ctx, "hostsdrv")
-    ok, info = confirm(ctx, binary, script, check, shared=obj["replay"].get("shared", False))
+    ok, info = confirm(ctx, binary, script, check, shared=obj["replay"].get("shared", False),
+                       dl=tuple(obj["replay"].get("dl", STD)))
     if ok:
         print("VIOLATION property=%s replay=%s" % (ctx.pid, path))
         return 1
@@ -341,7 +395,7 @@ def run_family(ctx, check, modes, shared=False):
     behaviours = []       # (label, list of histories)
     for mode in modes:
         depth = 3 if quick else 4
-        r = run_mc(ctx, mode, depth, export_every=1 if quick else 4)
+        r = run_mc(ctx, mode, depth, export_every=2 if quick else 4)
         cov["tlc"]["mc_%s_depth%d" % (mode, depth)] = r.summary()
         states += r.distinct
         trans += r.generated
@@ -349,11 +403,13 @@ def run_family(ctx, check, modes, shared=False):
         if not hs:
             raise vlib.InfraError("TLC exported no behaviours")
         behaviours.append(("mc-%s" % mode, hs))
-        # one level deeper, model checking only (mechanism against the property level, no replay)
-        r = run_mc(ctx, mode, depth + 1, export_every=0, timeout=240 if quick else 2400, allow_timeout=True)
-        cov["tlc"]["mc_%s_depth%d_noexport" % (mode, depth + 1)] = dict(r.summary(), timed_out=bool(getattr(r, "timed_out", False)))
-        states += r.distinct
-        trans += r.generated
+        # one level deeper, model checking only (mechanism against the property level, no replay);
+        # in the quick tier only for the last mode of the list (C04/C05: notify also covers C06's ledger)
+        if not quick or mode == modes[-1]:
+            r = run_mc(ctx, mode, depth + 1, export_every=0, timeout=240 if quick else 2400, allow_timeout=True)
+            cov["tlc"]["mc_%s_depth%d_noexport" % (mode, depth + 1)] = dict(r.summary(), timed_out=bool(getattr(r, "timed_out", False)))
+            states += r.distinct
+            trans += r.generated
         sim_depth, sim_num = (10, 400) if quick else (14, 4000)
         r = run_sim(ctx, mode, sim_depth, sim_num)
         cov["tlc"]["sim_%s_depth%d" % (mode, sim_depth)] = r.summary()
@@ -361,8 +417,17 @@ def run_family(ctx, check, modes, shared=False):
         rng.shuffle(hs)
         behaviours.append(("sim-%s" % mode, hs[:sim_num]))
         n, ln = (300, 40) if quick else (3000, 60)
+        k = 6 if quick else 60
         behaviours.append(("rand-%s" % mode, [random_script(rng, mode, ln) for _ in range(n)] +
-                           [crowd_script(rng, mode) for _ in range(12 if quick else 120)]))
+                           [crowd_script(rng, mode) for _ in range(k)] + [maccrowd_script(rng, mode) for _ in range(k)] +
+                           [saturation_script(rng, mode) for _ in range(2 if quick else 10)]))
+        # a legal configuration with PurgeDeadline < OfflineDeadline (separate TLC constants)
+        r = run_mc(ctx, mode, 3, export_every=4 if quick else 1, dl=ALT)
+        cov["tlc"]["mc_%s_depth3_altdeadlines" % mode] = r.summary()
+        states += r.distinct
+        trans += r.generated
+        behaviours.append(("alt-%s" % mode, [h for h in r.json if isinstance(h, list)] +
+                           [random_script(rng, mode, ln) for _ in range(n // 4)]))
     total_lines = validated = nbeh = 0
     distinct = set()
     samples = []
@@ -370,9 +435,10 @@ def run_family(ctx, check, modes, shared=False):
     for label, hs in behaviours:
         sp = os.path.join(ctx.scratch, label + ".script")
         tp = os.path.join(ctx.scratch, label + ".trace")
-        write_script(sp, hs)
+        dl = ALT if label.startswith("alt-") else STD
+        write_script(sp, hs, dl=dl)
         st = drive(ctx, binary, sp, tp, shared=shared)
-        res = check_traces(ctx, binary, tp, check, label, shared=shared)
+        res = check_traces(ctx, binary, tp, check, label, shared=shared, dl=dl)
         res.update(st)
         cov.setdefault("runs", []).append(res)
         total_lines += res["lines"]
